@@ -83,6 +83,23 @@ type Scenario struct {
 	Seq     bool       `json:"seq,omitempty"`      // a connection's requests are written only after the server has read the previous connection's
 	Model   bool       `json:"model"`
 	Repeat  int        `json:"repeat,omitempty"`
+	// kind "app": a real application (tars.Run) with one TarsServer per adapter, all with the pool
+	// settings above, shut down through the framework's own graceful shutdown (SIGTERM → graceShutdown);
+	// CtxMs is the gracedowntimeout
+	Adapters []AdapterPlan `json:"adapters,omitempty"`
+	App      bool          `json:"app,omitempty"` // (derived) this is one adapter of an app scenario
+}
+
+// AdapterPlan is the client script of one adapter of an app scenario.
+type AdapterPlan struct {
+	Conns   []ConnPlan `json:"conns"`
+	Trigger string     `json:"trigger"`
+}
+
+// adapterScenario is the per-adapter view of an app scenario.
+func (sc Scenario) adapterScenario(j int) Scenario {
+	return Scenario{Kind: "plan", Pool: sc.Pool, QCap: sc.QCap, Conns: sc.Adapters[j].Conns, Trigger: sc.Adapters[j].Trigger,
+		CtxMs: sc.CtxMs, Model: sc.Model, App: true}
 }
 
 func (sc Scenario) key() string {
@@ -322,6 +339,7 @@ func freeAddr() (string, error) {
 }
 
 type outcome struct {
+	idleFloor  time.Duration // app: the last activity on ANY adapter (graceShutdown waits for all of them)
 	evs        []event
 	shutCalled time.Duration
 	shutRet    time.Duration // 0: never returned (hang)
@@ -348,12 +366,29 @@ func waitUntil(limit time.Duration, f func() bool) bool {
 	return true
 }
 
+// shutdowner triggers the graceful shutdown: it records H (and later T) in the history and returns the
+// moment of the call, the deadline's length and a channel closed when the shutdown call has returned.
+type shutdowner func() (tCall time.Time, ctxDur time.Duration, done <-chan struct{})
+
+func newProto(rec *recorder) *proto {
+	return &proto{rec: rec, ports: map[string]int{}, stallGo: make(chan struct{}), stalled: make(chan struct{}),
+		yielded: make(chan struct{}), yieldGo: make(chan struct{})}
+}
+
+func retArg(took, ctxDur time.Duration) string {
+	if took < ctxDur-60*time.Millisecond {
+		return "1"
+	} else if took > ctxDur+60*time.Millisecond {
+		return "0"
+	}
+	return "x"
+}
+
+// runScenario: one transport.TarsServer of its own, Shutdown(ctx) called directly.
 func runScenario(sc Scenario) (out outcome) {
 	start := time.Now()
-	defer func() { out.elapsed = time.Since(start) }()
 	rec := &recorder{t0: start, last: start}
-	p := &proto{rec: rec, ports: map[string]int{}, stallGo: make(chan struct{}), stalled: make(chan struct{}),
-		yielded: make(chan struct{}), yieldGo: make(chan struct{})}
+	p := newProto(rec)
 	var srv *transport.TarsServer
 	var addr string
 	for try := 0; ; try++ {
@@ -380,6 +415,25 @@ func runScenario(sc Scenario) (out outcome) {
 		srv.Serve()
 		rec.add(event{Kind: "A"})
 	}()
+	return drive(sc, rec, p, addr, start, func() (time.Time, time.Duration, <-chan struct{}) {
+		ctxDur := time.Duration(sc.CtxMs) * time.Millisecond
+		ctx, cancel := context.WithTimeout(context.Background(), ctxDur)
+		done := make(chan struct{})
+		rec.add(event{Kind: "H"})
+		tCall := time.Now()
+		go func() {
+			defer cancel()
+			srv.Shutdown(ctx)
+			rec.add(event{Kind: "T", Arg: retArg(time.Since(tCall), ctxDur)})
+			close(done)
+		}()
+		return tCall, ctxDur, done
+	})
+}
+
+// drive plays the clients of one server (one adapter) and observes it through the graceful shutdown.
+func drive(sc Scenario, rec *recorder, p *proto, addr string, start time.Time, shut shutdowner) (out outcome) {
+	defer func() { out.elapsed = time.Since(start) }()
 
 	// connections; each is warmed up with one request so that its receive loop is known to run (the
 	// connection is in the server's table) before anything else happens
@@ -408,7 +462,15 @@ func runScenario(sc Scenario) (out outcome) {
 		clients[c].conn.Write(buf) // one segment: pipelined
 	}
 	for i := range sc.Conns {
-		conn, err := net.DialTimeout("tcp", addr, 5*time.Second)
+		var conn net.Conn
+		var err error
+		for dl := time.Now().Add(10 * time.Second); ; {
+			conn, err = net.DialTimeout("tcp", addr, 2*time.Second)
+			if err == nil || time.Now().After(dl) {
+				break
+			}
+			time.Sleep(20 * time.Millisecond)
+		}
 		if err != nil {
 			out.err = "dial: " + err.Error()
 			return
@@ -500,32 +562,14 @@ func runScenario(sc Scenario) (out outcome) {
 	}
 
 	// Shutdown
-	ctxDur := time.Duration(sc.CtxMs) * time.Millisecond
-	out.ctx = ctxDur
-	ctx, cancel := context.WithTimeout(context.Background(), ctxDur)
-	defer cancel()
-	shutDone := make(chan struct{})
 	if sc.Kind == "toctou" {
 		p.mu.Lock()
 		p.yieldArm = true
 		p.mu.Unlock()
 	}
-	rec.add(event{Kind: "H"})
-	tCall := time.Now()
+	tCall, ctxDur, shutDone := shut()
+	out.ctx = ctxDur
 	out.shutCalled = tCall.Sub(start)
-	go func() {
-		srv.Shutdown(ctx)
-		took := time.Since(tCall)
-		arg := "x"
-		if took < ctxDur-60*time.Millisecond {
-			arg = "1"
-		} else if took > ctxDur+60*time.Millisecond {
-			arg = "0"
-		}
-		rec.add(event{Kind: "T", Arg: arg})
-		out.shutRet = time.Since(start)
-		close(shutDone)
-	}()
 
 	// late requests (written after Shutdown was called, before its first poll)
 	var lateWG sync.WaitGroup
@@ -574,6 +618,7 @@ func runScenario(sc Scenario) (out outcome) {
 
 	select {
 	case <-shutDone:
+		out.shutRet = time.Since(start)
 	case <-time.After(ctxDur + 8*time.Second):
 		out.shutRet = 0
 	}
@@ -817,7 +862,7 @@ func judge(sc Scenario, o outcome, k consts) []finding {
 				}
 			}
 		}
-		if allClosed && lastX < tH+o.ctx-poll-slack && tT > lastX+poll+slack {
+		if !sc.App && allClosed && lastX < tH+o.ctx-poll-slack && tT > lastX+poll+slack {
 			fs = append(fs, finding{"late-return", "Shutdown", fmt.Sprintf("all connections were closed %v after Shutdown was called, Shutdown returned only after %v (deadline %v)", lastX-tH, took, o.ctx)})
 		}
 	}
@@ -835,8 +880,12 @@ func judge(sc Scenario, o outcome, k consts) []finding {
 	}
 	// wake-up poll + the receiver's drain poll + the next Shutdown poll + read deadline + slack
 	drainBudget := time.Duration(2*k.pollMs+k.drainMs+k.readDlMs)*time.Millisecond + 1500*time.Millisecond
-	if allSettled && tH > 0 && tH+o.ctx > idleFrom+drainBudget+slack {
-		if tT == 0 || tT > idleFrom+drainBudget {
+	retFrom := idleFrom
+	if o.idleFloor > retFrom {
+		retFrom = o.idleFloor
+	}
+	if allSettled && tH > 0 && tH+o.ctx > retFrom+drainBudget+slack {
+		if tT == 0 || tT > retFrom+drainBudget {
 			fs = append(fs, finding{"shutdown-late", "Shutdown", fmt.Sprintf("every request was settled %v after Shutdown was called and nothing arrived afterwards; Shutdown (ctx %v) returned after %v — expected within %v of the last activity", idleFrom-tH, o.ctx, tT-tH, drainBudget)})
 		}
 		for c := range connected {
@@ -844,7 +893,7 @@ func judge(sc Scenario, o outcome, k consts) []finding {
 				fs = append(fs, finding{"conn-not-closed", "recv-drain", fmt.Sprintf("connection %d had nothing in flight from %v on and was closed by the server only at %v", c, idleFrom, x)})
 			}
 		}
-		if !served || tServe > idleFrom+drainBudget+slack {
+		if !sc.App && (!served || tServe > idleFrom+drainBudget+slack) {
 			what := "Serve() (the accept loop) had not returned when everything was quiet"
 			if sc.Pool > 0 {
 				what += ": the worker pool was never released"
@@ -867,6 +916,11 @@ func judge(sc Scenario, o outcome, k consts) []finding {
 		}
 		if !pending && tT > 0 {
 			fs = append(fs, finding{"conn-not-closed", "recv-drain", fmt.Sprintf("connection %d has no unanswered request and was never closed by the server", c)})
+		}
+	}
+	if sc.App {
+		for i := range fs {
+			fs[i].locus = "graceShutdown-adapter:" + fs[i].locus
 		}
 	}
 	return fs
